@@ -173,7 +173,8 @@ def gen_lookup(rng):
         q = " ".join(["c" if mm[4] == "1" else "i", qf, qc, mm[2], mm[3] if rng.random() < 0.8 else rng.choice("01")])
     else:
         q = " ".join([rng.choice("ic"), rng.choice(frames), rng.choice(classes[:4]), rng.choice(meths), rng.choice("001")])
-    return "lookup %s | %s | %s | %s" % (q, ";".join(ms), ";".join(es), bc)
+    top = ",".join(rng.sample(classes[:4], rng.randint(0, 2))) if rng.random() < 0.5 else ""      # defined at top level by the program itself
+    return "lookup %s | %s | %s | %s | %s" % (q, ";".join(ms), ";".join(es), bc, top)
 
 
 def gen_ns_case(rng, k):
